@@ -23,9 +23,15 @@ Init == l = 1
 Next ==
     /\ l <= Len(Rec)
     /\ l' = l + 1
-    /\ LET r == Rec[l]  f == PipeFails(r) IN
+    /\ LET r == Rec[l]
+           isdebug == "debug" \in DOMAIN r /\ r.debug = 1
+           f == IF isdebug THEN DebugFails(r) ELSE PipeFails(r) IN
        IF f = {} THEN TRUE
-       ELSE PrintT(<<"FAIL", l, ToJson([clauses |-> SetToSeq(f), case |-> Brief(r)])>>)
+       ELSE PrintT(<<"FAIL", l, ToJson([clauses |-> SetToSeq(f),
+                     case |-> IF isdebug THEN [id |-> r.id, vpl |-> r.vpl, invalid |-> 0, built |-> r.built, panic |-> r.panic, files |-> "",
+                                               declared |-> r.declared, cov |-> r.cov, lookups |-> r.lookups,
+                                               err |-> (IF r.built = 1 THEN "" ELSE r.err)]
+                              ELSE Brief(r)])>>)
 Spec == Init /\ [][Next]_vars
 
 AllConsumed ==
